@@ -67,6 +67,10 @@ CHECKS = {
    text="On every hypergraph shape without repeated or empty edges within the bound, the three simpliciality measures (raw and normalised edit distance, mean face edit distance, simplicial fraction and the two derived scores) are compared with exhaustive subset enumeration; labels are unbounded orderable solver integers (each label order the Trie's sort can see is a path), members are listed in several orders, min_size in 1..4 and exclude_min_size are solver-chosen; scores in [0,1] or NaN and equal to 1 on downward-closed shapes. A second harness forks labels exhaustively over [-3,3] under real hashing.",
    note="Oracle = brute-force enumeration on the concrete incidence shape; floats compared with tolerance 1e-9.",
    technique="bounded symbolic execution (z3) of the simpliciality code with symbolic labels against an exhaustive-enumeration oracle"),
+ "C12": dict(level="other", ref="5/C12",
+   text="For every hypergraph shape within the bound (isolated nodes, empty/duplicate/singleton edges included) incidence, adjacency (weighted/thresholded by s), degree vector, intersection profile, clique-motif matrix, adjacency tensor, order-d, multi-order and normalised Laplacians are compared entrywise through their returned index maps with brute-force definitions; symmetry, zero diagonal, zero row sums; sparse equals dense for every argument combination; degenerate cases (no edges, none of the requested order). Node labels and edge ids are unbounded solver integers, order/s/flags are solver-chosen.",
+   note="Reduced reach, stated: the numeric kernels are scipy/numpy C code, so the solver quantifies only the labelling and the small integer/boolean parameters; shapes are enumerated. Positive semidefiniteness is not decided (follows from symmetry and the B^T B form).",
+   technique="bounded symbolic execution (z3) over labels and parameters with enumerated shapes; brute-force matrix oracles"),
 }
 NOT_APPLICABLE = {
  "C11": "disk round trips: every value that reaches a file passes through json/numpy C encoders which reject or realise a symbolic proxy, so no solver variable can cross the file boundary; in-memory halves are decided under C10/C04",
